@@ -61,7 +61,12 @@ impl CopyToFileExecutor {
         while let Some(chunk) = recver.blocking_recv() {
             for i in 0..chunk.cardinality() {
                 // TODO(wrj): avoid dynamic memory allocation (String)
-                let row = chunk.arrays().iter().map(|a| a.get_to_string(i));
+                // NULL is written as an empty field, which is what COPY FROM reads back as NULL
+                // (the text `NULL` would not parse as a number and would import as a string).
+                let row = chunk.arrays().iter().map(|a| match a.get(i).is_null() {
+                    true => String::new(),
+                    false => a.get_to_string(i),
+                });
                 writer.write_record(row)?;
             }
             writer.flush()?;
